@@ -94,12 +94,20 @@ impl FeoxStore {
             if let Some(ref disk_io) = self.disk_io {
                 // Update metadata with current stats
                 let mut metadata = self._metadata.write();
+                #[cfg(feoxdb_verif)]
+                let _lk_meta = crate::verif::LockSpan::new("meta", 2);
                 metadata.total_records = self.stats.record_count.load(Ordering::Relaxed) as u64;
                 metadata.total_size = self.stats.disk_usage.load(Ordering::Relaxed);
+                #[cfg(feoxdb_verif)]
+                let _lk_free = crate::verif::LockSpan::around("free", 1);
                 metadata.fragmentation = self.free_space.read().get_fragmentation();
+                #[cfg(feoxdb_verif)]
+                drop(_lk_free);
                 metadata.update();
 
                 // Write metadata
+                #[cfg(feoxdb_verif)]
+                let _lk_device = crate::verif::LockSpan::around("device", 2);
                 disk_io.write().write_store_metadata(&mut metadata)?;
             }
         }
@@ -148,6 +156,8 @@ impl FeoxStore {
                 ))
             })?
             .read();
+        #[cfg(feoxdb_verif)]
+        let _lk_device = crate::verif::LockSpan::new("device", 1);
 
         let data = disk_io.read_sectors_sync(sector, sectors_needed as u64)?;
         #[cfg(feoxdb_verif)]
